@@ -38,7 +38,7 @@ func BuildReport(resultPtr *rego.ResultSet, validationConfig c.ValidationConfigu
 	context := buildContext(len(results) == 0, reportConfig)
 	reportNode := ValidationReportNode(profileName, results, conforms, validationConfig, reportConfig)
 	instance := DialectInstance(&reportNode, &context)
-	return Encode(instance), nil
+	return EncodeOrError(instance)
 }
 
 func allObjects(values []any) bool {
@@ -99,10 +99,19 @@ func buildContext(emptyReport bool, reportConfig c.ReportConfiguration) types.Ob
 }
 
 func Encode(data any) string {
+	encoded, _ := EncodeOrError(data)
+	return encoded
+}
+
+// EncodeOrError is Encode without swallowing the encoder's error (e.g. a number the policy built from
+// a malformed lexical range such as "007" is not a valid JSON number)
+func EncodeOrError(data any) (string, error) {
 	var b bytes.Buffer
 	enc := json.NewEncoder(&b)
 	enc.SetIndent("", "  ")
 	enc.SetEscapeHTML(false)
-	enc.Encode(data)
-	return b.String()
+	if err := enc.Encode(data); err != nil {
+		return "", errors.New("the report cannot be encoded: " + err.Error())
+	}
+	return b.String(), nil
 }
